@@ -367,6 +367,13 @@ func worldAuthz(w *World) {
 			c.register(M{"proxy_name": fmt.Sprintf("hb%d", i), "proxy_type": "tcp", "remote_port": 20003})
 			t0 := w.Net.Now()
 			stop := make(chan struct{})
+			offerToo := r.Intn(2) == 0
+			var held []net.Conn
+			defer func() {
+				for _, h := range held {
+					h.Close()
+				}
+			}()
 			c.Node.Go(func() {
 				for {
 					select {
@@ -377,6 +384,13 @@ func worldAuthz(w *World) {
 							return
 						}
 						c.Ping(true, "wrong")
+						// ... while work connections keep coming in for the session (they need no key unless that scope
+						// is on too): delivering connections is no heartbeat
+						if offerToo {
+							if wc, err := c.OfferWorkConn(c.RunID, scopeWC, token); err == nil {
+								held = append(held, wc)
+							}
+						}
 					}
 				}
 			})
